@@ -326,8 +326,39 @@ def backref_spellings(run, ctx):
 # flags (C19)
 # ---------------------------------------------------------------------------------------------
 
+def group_flag_scope(run, ctx):
+    """An inline flag group `(?i)` applies to the end of the enclosing group: parse_group has to put the flags back
+    after the body of a capturing / atomic / look-around group (reference: regex crate, PCRE, Oniguruma)."""
+    fam, label = "PARSE", "group-flag-scope"
+    fn = _fn(run, ctx, "parse_group", fam, label)
+    if fn is None:
+        return
+    n = bad = 0
+    for p in S.paths_of(fn["body"], max_paths=200000):
+        if not feasible(p):
+            continue
+        v = S.ret_value(p)
+        if v is None or not v.startswith("Ok(("):
+            continue
+        body = [i for i, ev in enumerate(p.events) if ev.kind == "call" and (ev.a or "").startswith("self.parse_re(")]
+        if not body:
+            continue
+        n += 1
+        saved = [ev.a for ev in p.events[:body[0]] if ev.kind == "let" and ev.b == "self.flags"]
+        rest = [ev for ev in p.events[body[0]:] if ev.kind == "assign" and ev.a == "self.flags" and ev.b == "=" and ev.c in saved]
+        if not rest:
+            bad += 1
+    run.floor(fam, label, H.where(fn), n, 3, "group-producing paths of parse_group")
+    if bad:
+        run.violation(fam, label, "flags-leak", H.where(fn),
+                      "parse_group does not restore the flags after the body of a capturing / atomic / look-around group (%d of %d paths): an inline flag leaks out of the group, e.g. ((?i)a)b matches \"AB\" and (?>(?i)a)b matches \"aB\"" % (bad, n))
+    else:
+        run.ok(fam, label, H.where(fn), n, "flags restored after the body of every group")
+
+
 def flags_rule(run, ctx):
     literal_casei(run, ctx)
+    group_flag_scope(run, ctx)
     fam, label = "PARSE", "flags"
     fn = _fn(run, ctx, "parse_flags", fam, label)
     if fn is None:
@@ -462,7 +493,56 @@ def literal_casei(run, ctx):
     run.ok(fam, label, "src/parse.rs", n, "%d Expr::Literal / Expr::Delegate constructions in Parser methods take casei from the flag in force (fixed letter-free classes: false)" % n)
 
 
+def class_text(run, ctx):
+    """parse_class copies a bracket class to the inner engine item by item: structural brackets, raw pattern text,
+    an escaped single character (escape_into), or the text of an escape that stands for a class (\\h, \\H, \\d ...)
+    exactly as parse_escape produced it.  Anything else written into the class text changes what the class means."""
+    fam, label = "PARSE", "class-text"
+    fn = _fn(run, ctx, "parse_class", fam, label)
+    if fn is None:
+        return
+    # names bound by the patterns Expr::Literal{val,..} / Expr::Delegate{inner,..}
+    lit, dele = set(), set()
+    for nd in H.walk(fn["body"]):
+        if nd.get("k") == "Match":
+            for arm in nd["arms"]:
+                pc = H.pat_canon(arm["pat"])
+                m = re.match(r"^Expr::Literal\{.*?val:(\w+)", pc)
+                if m:
+                    lit.add(m.group(1))
+                m = re.match(r"^Expr::Delegate\{.*?inner:(\w+)", pc)
+                if m:
+                    dele.add(m.group(1))
+    # the variable holding the class text: the String that ends up as `inner` of the returned Delegate
+    CL = None
+    for nd in H.walk(fn["body"]):
+        if nd.get("k") == "Struct" and nd.get("variant") == "Delegate":
+            d = {f["name"]: H.canon(f["e"]) for f in nd["fields"]}
+            CL = d.get("inner")
+    if CL is None or not lit or not dele:
+        run.violation(fam, label, "anchor-missing", H.where(fn), "anchor-missing: parse_class should build a Delegate from a class string and handle Literal / Delegate escapes (found %s, %s, %s)" % (CL, lit, dele))
+        return
+    n = 0
+    for nd in H.walk(fn["body"]):
+        if nd.get("k") == "MethodCall" and H.canon(nd["recv"]) == CL:
+            arg = H.canon(nd["args"][0]) if nd.get("args") else ""
+            n += 1
+            if nd["name"] == "push" and arg in ("'['", "']'", "'^'"):
+                continue
+            if nd["name"] == "push_str" and (arg in dele or H.pat_match("self.re[{a}..{b}]", arg)):
+                continue
+            run.violation(fam, label, "write/%s(%s)" % (nd["name"], arg), H.where(nd), "parse_class writes %s.%s(%s): the class text may only receive brackets, raw pattern text, an escaped literal, or the unmodified text of a class escape (e.g. [_\\H] must stay [_[^0-9A-Fa-f]])" % (CL, nd["name"], arg))
+        elif nd.get("k") == "Call" and any(H.canon(a) == CL for a in nd.get("args") or []):
+            n += 1
+            c = H.canon(nd)
+            if not any(c == "escape_into(%s,%s)" % (v, CL) for v in lit):
+                run.violation(fam, label, "write/" + c, H.where(nd), "parse_class passes the class text to %s: only escape_into(<literal of the escape>, class) may write it" % c)
+    run.floor(fam, label, H.where(fn), n, 8, "writes to the class text")
+    run.ok(fam, label, H.where(fn), n, "%d writes to the class text: brackets, raw text, escaped literal, unmodified class escape" % n)
+
+
 def escape_table(run, ctx):
+    class_text(run, ctx)
     fam, label = "PARSE", "escape-table"
     fn = _fn(run, ctx, "parse_escape", fam, label)
     if fn is None:
@@ -502,6 +582,8 @@ def escape_table(run, ctx):
 # ---------------------------------------------------------------------------------------------
 
 def conditional_rule(run, ctx):
+    """What parse_conditional may return, path by path (reference: `(?(c)yes|no)` = Conditional{c, yes, no}, `no` empty
+    if omitted; only `(?(N))` with no branch text at all is the bare group test)."""
     fam, label = "PARSE", "conditional"
     fn = _fn(run, ctx, "parse_conditional", fam, label)
     if fn is None:
@@ -509,31 +591,67 @@ def conditional_rule(run, ctx):
     w = H.where(fn)
     c = H.canon(fn["body"])
     n = 0
-
-    def need(pats, key, what):
-        nonlocal n
-        n += 1
-        if isinstance(pats, str):
-            pats = [pats]
-        if not any(H.find_pat(c, p_) for p_ in pats):
-            run.violation(fam, label, key, w, "parse_conditional: " + what)
-    need("let ({be},{t}) = self.parse_branch({nx},depth)?;", "true-branch", "the true branch is what parse_branch reads up to the first top-level `|`")
-    need("if self.re[{e}..].starts_with('|') {let ({fe},{fb}) = self.parse_re((1 + {e}),depth)?; {f} = {fb}; {e} = {fe}}", "false-branch",
-         "everything after the first top-level `|` (possibly a further alternation) is the false branch")
-    need("let {f} = Expr::Empty", "false-default", "an absent false branch must be Expr::Empty")
-    n += 1
     alt_pats = [nd for nd in H.walk(fn["body"]) if nd.get("k") in ("TupleStructPat", "StructPat") and nd.get("adt", "").endswith("Expr") and nd.get("variant") == "Alt"]
     if alt_pats or "let Expr::Alt(" in c:
         run.violation(fam, label, "alt-destructuring", w, "parse_conditional: the body must not be split by destructuring an Expr::Alt: a true branch that merely consists of a group such as (?:a|b) (or a flag group (?i:a|b)) parses to a bare alternation and would be torn into true/false branches")
-    need("let {ic} = if let Expr::Backref({g}) = {cond} {Expr::BackrefExistsCondition({g})} else {{cond}}", "group-condition",
-         "a group-number / name condition must become BackrefExistsCondition(group), any other condition is kept as an expression")
-    need(["if ((Expr::Empty == {t}) && (Expr::Empty == {f})) {{ic}} else {Expr::Conditional{condition:Box::new({ic}),false_branch:Box::new({f}),true_branch:Box::new({t})}}",
-          "if (({t} == Expr::Empty) && ({f} == Expr::Empty)) {{ic}} else {Expr::Conditional{condition:Box::new({ic}),false_branch:Box::new({f}),true_branch:Box::new({t})}}"],
-         "bare-condition", "the bare condition may be returned only when both branches are empty; otherwise Conditional{condition, true_branch: first, false_branch: rest}")
-    need(["if ({e} == {nx}) {if let Expr::Backref({g}) = {cond} {let {after} = self.check_for_close_paren({e})?; return Ok(({after},Expr::BackrefExistsCondition({g})))}",
-          "if ({nx} == {e}) {if let Expr::Backref({g}) = {cond} {let {after} = self.check_for_close_paren({e})?; return Ok(({after},Expr::BackrefExistsCondition({g})))}"],
-         "bare-backref", "(?(N)) alone must succeed iff the group matched: BackrefExistsCondition(N)")
-    run.ok(fam, label, w, n, "first alternative = true branch, rest = false branch (Empty if absent), (?(N)) = BackrefExistsCondition")
+    kinds = {"bare": 0, "cond": 0, "cond-else": 0}
+    for p in S.paths_of(fn["body"], max_paths=200000):
+        if not feasible(p):
+            continue
+        v = S.ret_value(p)
+        if v is None or not v.startswith("Ok(("):
+            continue
+        n += 1
+        sm = S.Summary(p)
+        val = sm.val
+        # the pieces this path parsed
+        T = FB = None
+        for ev in p.events:
+            if ev.kind == "let" and "self.parse_branch(" in (ev.b or ""):
+                m = re.match(r"^\((\w+),(\w+)\)$", ev.a or "")
+                if m and T is None:
+                    T = m.group(2)
+            if ev.kind == "let" and "self.parse_re(" in (ev.b or "") and "(1 + " in (ev.b or ""):
+                m = re.match(r"^\((\w+),(\w+)\)$", ev.a or "")
+                if m:
+                    FB = m.group(2)
+        bar = [ev.b for ev in p.events if ev.kind == "cond" and re.search(r"starts_with\('\|'\)$", ev.a or "")]
+        has_bar = bool(bar and bar[-1])
+        isref = [(ev.a, ev.c) for ev in p.events if ev.kind == "letcond" and (ev.a or "").startswith("Expr::Backref(")]
+        G = None
+        if isref and isref[-1][1]:
+            G = re.match(r"^Expr::Backref\((\w+)\)$", isref[-1][0]).group(1)
+        m = H.pat_match("Ok(({*a},Expr::BackrefExistsCondition({g})))", val)
+        if m:
+            # the bare test: only when nothing at all follows the condition
+            eqs = [(t, tr) for t, tr, _, _ in sm.conds if re.match(r"^\(.* == .*\)$", t) and "check_for_close_paren(" in t]
+            if G is None or m.group("g") != G or not eqs or not eqs[-1][1]:
+                run.violation(fam, label, "bare-test", w, "parse_conditional returns the bare group test %s on a path where the construct is not `(?(N))` with nothing after the condition (a `|` or a branch makes it a conditional that continues either way)" % val[:80])
+            else:
+                kinds["bare"] += 1
+            continue
+        m = H.pat_match("Ok(({*a},Expr::Conditional{condition:Box::new({*c}),false_branch:Box::new({*f}),true_branch:Box::new({*t})}))", val)
+        if not m:
+            run.violation(fam, label, "result-shape", w, "parse_conditional returns %s: with a branch or a `|` present the result must be Conditional{condition, true_branch: text up to the first top-level `|`, false_branch: the rest or Empty}; reducing `(?(c)|)` to the bare condition makes it fail where it must continue" % val[:120])
+            continue
+        C_, F_, T_ = m.group("c"), m.group("f"), m.group("t")
+        want_c = ("Expr::BackrefExistsCondition(%s)" % G) if G else None
+        if (G and C_ != want_c) or (not G and ("BackrefExistsCondition" in C_ or "Backref(" in C_)):
+            run.violation(fam, label, "group-condition", w, "parse_conditional: a group-number / name condition must become BackrefExistsCondition(group), any other condition is kept as an expression (found %s)" % C_)
+        if T is None or T_ != T:
+            run.violation(fam, label, "true-branch", w, "parse_conditional: the true branch is what parse_branch reads up to the first top-level `|` (found %s)" % T_)
+        if has_bar:
+            if FB is None or F_ != FB:
+                run.violation(fam, label, "false-branch", w, "parse_conditional: everything after the first top-level `|` (parse_re, possibly a further alternation) is the false branch (found %s)" % F_)
+            kinds["cond-else"] += 1
+        else:
+            if F_ != "Expr::Empty":
+                run.violation(fam, label, "false-default", w, "parse_conditional: an absent false branch must be Expr::Empty (found %s)" % F_)
+            kinds["cond"] += 1
+    for k_, v_ in kinds.items():
+        if v_ < 1:
+            run.violation(fam, label, "anchor-missing/" + k_, w, "anchor-missing: parse_conditional has no path of kind %s (%s)" % (k_, kinds))
+    run.ok(fam, label, w, n, "first alternative = true branch, rest = false branch (Empty if absent), only `(?(N))` alone = BackrefExistsCondition; %s" % kinds)
 
 
 WS_SITES = {
